@@ -21,10 +21,10 @@ package mqtt
 //@   props C15
 //@   requires c != nil
 //@   assigns c.idLast
-//@   ensures[C15] result != 0
-//@   ensures[C15] evCount("sync/atomic.AddUint32") == 1
-//@   ensures[C15] evCount("(*BaseClient).newID") == 0 ==> result == uint16(evRet[uint32]("sync/atomic.AddUint32", 0, 0))
-//@   ensures[C15] evCount("(*BaseClient).newID") <= 1
+//@   ensures[C15] nonzero: result != 0
+//@   ensures[C15] atomic_only: evCount("sync/atomic.AddUint32") >= 1 && evCount("sync/atomic.StoreUint32") == 0
+//@   ensures[C15] from_own_increment: evCount("(*BaseClient).newID") == 0 ==> result == uint16(evRet[uint32]("sync/atomic.AddUint32", evCount("sync/atomic.AddUint32")-1, 0))
+//@   ensures[C15] delegates: evCount("(*BaseClient).newID") >= 1 ==> result == evRet[uint16]("(*BaseClient).newID", evCount("(*BaseClient).newID")-1, 0)
 
 // Any 65535 consecutive values of the 32-bit counter have pairwise distinct low halves,
 // across wrap-around of both the 16-bit and the 32-bit value: two identifiers handed out
